@@ -47,8 +47,13 @@ type c13Case struct {
 	TimeoutMS int `json:"timeout_ms,omitempty"`
 }
 
-var c13Calls = []string{"sessionless-command", "new-session", "new-session-discovery", "session-command", "session-close", "retrieve-sdrs", "retrieve-cipher-suites", "dcmi-sensor-info"}
-var c13Patterns = []string{"black-hole", "late-reply", "garbage", "temporary-code", "truncated"}
+var c13Calls = []string{"sessionless-command", "new-session", "new-session-discovery", "session-command", "session-close", "retrieve-sdrs", "retrieve-cipher-suites", "dcmi-sensor-info",
+	// the same calls at a later point of an object's life
+	"session-close-after-failed-close", "new-session-with-3-open", "new-session-with-4-open", "new-session-with-6-open"}
+var c13Patterns = []string{"black-hole", "late-reply", "garbage", "temporary-code", "truncated",
+	// a healthy BMC whose SDR repository reports a newer timestamp at every look
+	// (only meaningful for retrieve-sdrs; honest elsewhere)
+	"repository-keeps-changing"}
 
 // c13Answer returns the environment's answer for a faulty send.
 func c13Answer(p string) env.Answer {
@@ -67,6 +72,16 @@ func c13Answer(p string) env.Answer {
 				return // setup payloads have no completion code: behaves like a black hole
 			}
 			inner(t, rx)
+		}
+		return a
+	case "repository-keeps-changing":
+		a := env.Honest()
+		a.Name = "repository-keeps-changing"
+		a.Pre = func(t *env.Transport) {
+			if t.BMC.Cfg.Repo != nil {
+				t.BMC.Cfg.Repo.KeepReservation = true
+				t.BMC.Cfg.Repo.LastAdd++ // newer addition timestamp, content and reservation untouched
+			}
 		}
 		return a
 	default: // truncated
@@ -95,7 +110,16 @@ func c13Answer(p string) env.Answer {
 // fault window opens. Returns the error of the call under test.
 func c13Run(call string, conn *bmc.V2SessionlessTransport, password []byte, ctx func() context.Context, begin func()) (err error, valid bool) {
 	opts := &bmc.V2SessionOpts{SessionOpts: bmc.SessionOpts{Username: "c13", Password: password, MaxPrivilegeLevel: ipmi.PrivilegeLevelUser}, CipherSuites: []ipmi.CipherSuite{ipmi.CipherSuite3}}
-	needSession := call == "session-command" || call == "session-close" || call == "retrieve-sdrs" || call == "dcmi-sensor-info"
+	needSession := call == "session-command" || call == "session-close" || call == "retrieve-sdrs" || call == "dcmi-sensor-info" || call == "session-close-after-failed-close"
+	if strings.HasPrefix(call, "new-session-with-") {
+		var k int
+		fmt.Sscanf(call, "new-session-with-%d-open", &k)
+		for i := 0; i < k; i++ {
+			if _, e := conn.NewV2Session(context.Background(), opts); e != nil {
+				return fmt.Errorf("harness: opening session %d failed: %v", i+1, e), false
+			}
+		}
+	}
 	var sess *bmc.V2Session
 	if needSession {
 		s, e := conn.NewV2Session(context.Background(), opts)
@@ -109,7 +133,7 @@ func c13Run(call string, conn *bmc.V2SessionlessTransport, password []byte, ctx 
 	switch call {
 	case "sessionless-command":
 		_, err = conn.GetSystemGUID(c)
-	case "new-session":
+	case "new-session", "new-session-with-3-open", "new-session-with-4-open", "new-session-with-6-open":
 		_, err = conn.NewV2Session(c, opts)
 	case "new-session-discovery":
 		o := *opts
@@ -118,6 +142,9 @@ func c13Run(call string, conn *bmc.V2SessionlessTransport, password []byte, ctx 
 	case "session-command":
 		_, err = sess.GetDeviceID(c)
 	case "session-close":
+		err = sess.Close(c)
+	case "session-close-after-failed-close":
+		sess.Close(c) // whatever this returns, the next Close is the call under test
 		err = sess.Close(c)
 	case "retrieve-sdrs":
 		_, err = bmc.RetrieveSDRRepository(c, sess)
@@ -245,8 +272,11 @@ func c13Tolerates(c c13Case) bool {
 	if c.Pattern == "late-reply" {
 		return true
 	}
+	if c.Pattern == "repository-keeps-changing" && c.Call != "retrieve-sdrs" {
+		return true // every reply is the honest one
+	}
 	// Close Session has no response body: "truncated" is the honest reply
-	return c.Pattern == "truncated" && c.Call == "session-close"
+	return c.Pattern == "truncated" && strings.HasPrefix(c.Call, "session-close")
 }
 
 var c13HonestCache = map[string]int{}
@@ -322,6 +352,10 @@ func (u *udpBMC) serve() {
 			u.sendNo++
 			faulty = k == u.c.Step || (!u.c.Once && k > u.c.Step)
 		}
+		if faulty && u.c.Pattern == "repository-keeps-changing" && u.bmc.Cfg.Repo != nil {
+			u.bmc.Cfg.Repo.KeepReservation = true
+			u.bmc.Cfg.Repo.LastAdd++
+		}
 		rx := u.bmc.Receive(req)
 		var reply []byte
 		delay := time.Duration(0)
@@ -329,6 +363,8 @@ func (u *udpBMC) serve() {
 			reply = u.bmc.Honest(rx)
 		} else {
 			switch u.c.Pattern {
+			case "repository-keeps-changing":
+				reply = u.bmc.Honest(rx)
 			case "black-hole":
 			case "late-reply":
 				reply, delay = u.bmc.Honest(rx), u.lateDelay()
